@@ -1,4 +1,5 @@
 import JsonVerif.Model.Mapped
+import JsonVerif.Model.TryFrom
 import JsonVerif.Model.Machine
 import Driver.ObjCmd
 import Driver.ParseCmd
@@ -41,38 +42,18 @@ partial def walk (cm : List CMEntry) (v : JValue) (off : Nat) : List String × L
     | _, _ => (["PANIC"], [])
   | _ => ([], [])
 
-/-- `tryFrom <type code>`: model of the `TryFromJson` impls of src/try_from.rs on the leaf types
-    B (bool), S (String), U (unit), N (u8) and the constructors V (Vec), M (BTreeMap<String,_>),
-    O (Option); error = offset of the offending fragment; `none` = panic -/
-partial def tryFrom (cm : List CMEntry) : List Char → JValue → Nat → Option (Except Nat Unit)
-  | ['B'], v, off => some (match v with | .bool _ => .ok () | _ => .error off)
-  | ['S'], v, off => some (match v with | .string _ => .ok () | _ => .error off)
-  | ['U'], v, off => some (match v with | .null => .ok () | _ => .error off)
-  | ['N'], v, off => some (match v with
-      | .number n => if n.all Char.isDigit && (String.ofList n).toNat?.any (· ≤ 255) then .ok () else .error off
-      | _ => .error off)
-  | 'O' :: t, v, off => (match v with | .null => some (.ok ()) | _ => tryFrom cm t v off)
-  | 'V' :: t, v, off =>
-    match v with
-    | .array xs =>
-      match arrayMapped cm off xs with
-      | none => none
-      | some offs =>
-        (xs.zip offs).foldl (fun acc p => match acc with
-          | some (.ok ()) => tryFrom cm t p.1 p.2
-          | other => other) (some (.ok ()))
-    | _ => some (.error off)
-  | 'M' :: t, v, off =>
-    match v with
-    | .object es =>
-      match objectMapped cm off es with
-      | none => none
-      | some tr =>
-        (es.zip tr).foldl (fun acc p => match acc with
-          | some (.ok ()) => tryFrom cm t p.1.2 p.2.2.2
-          | other => other) (some (.ok ()))
-    | _ => some (.error off)
-  | _, _, _ => none
+/-- type codes of the harness: B (bool), S (String), U (unit), N (u8), V (Vec), M (BTreeMap<String,_>),
+    O (Option), X (Box) -/
+def parseCTy : List Char → Option CTy
+  | ['B'] => some .bool
+  | ['S'] => some .str
+  | ['U'] => some .unit
+  | ['N'] => some .u8
+  | 'O' :: t => (parseCTy t).map .opt
+  | 'V' :: t => (parseCTy t).map .vec
+  | 'M' :: t => (parseCTy t).map .map
+  | 'X' :: t => (parseCTy t).map .box
+  | _ => none
 
 def mappedCmd (args : List String) : String :=
   match args with
@@ -97,10 +78,13 @@ def mappedCmd (args : List String) : String :=
       match parseChars ⟨false, false⟩ cs false with
       | .error e => showErr false e
       | .ok (v, cm) =>
-        match tryFrom cm ty.toList v 0 with
-        | some (.ok ()) => "ok"
-        | some (.error off) => s!"err {off}"
-        | none => "PANIC"
+        match parseCTy ty.toList with
+        | none => "bad-op"
+        | some t =>
+          match tryFrom cm t v 0 with
+          | some (.ok ()) => "ok"
+          | some (.error off) => s!"err {off}"
+          | none => "PANIC"
   | _ => "bad-op"
 
 end Driver
